@@ -579,7 +579,7 @@ def _callee_attrs(prog: Program, f: FuncInfo, call: Any, arg: ast.AST, kw: str |
 
 
 def check_sweep(run: Run, prog: Program, tier: str = "quick") -> None:
-    fn = prog.func(f"{MAT}:Matryoshka._calc_target_power")
+    fn = find_calc(prog)
     run.analysed(fn.qual)
     sw = Sweep(prog, fn)
     svars, n = sw.svars, len(sw.svars)
@@ -757,8 +757,8 @@ def _sorted_sweep(prog: Program, fn: FuncInfo, want_arg: str | None) -> tuple[bo
 
 
 def check_end_to_end(run: Run, prog: Program, n: int, shapes: list[tuple[int, int, int]]) -> None:
-    """Thorough cross-check of the induction: the whole _calc_target_power with n symbolic proposals."""
-    fn = prog.func(f"{MAT}:Matryoshka._calc_target_power")
+    """Thorough cross-check of the induction: the whole target computation with n symbolic proposals."""
+    fn = find_calc(prog)
     it = RoleInterp(prog, prog.module(MAT))
     ctx: dict[str, Any] = {}
     if fn.cls is None:
@@ -828,16 +828,64 @@ def reachable_code(prog: Program, fn: FuncInfo) -> list[FuncInfo]:
     return list(seen.values())
 
 
-def _ctp_paths(prog: Program) -> tuple[FuncInfo, FuncInfo, list[SymPath]]:
-    calc = prog.func(f"{MAT}:Matryoshka._calc_target_power")
+CALC_HINT = "_calc_target_power"
+_CALC = {"name": CALC_HINT}
+
+
+def _loopers(cls: ClassInfo) -> set[str]:
+    """Methods with a loop of their own: never spliced into a caller (the path walker cannot see into loops)."""
+    return {n for n, m in cls.methods.items() if any(isinstance(x, (ast.For, ast.AsyncFor, ast.While)) for x in body_walk(m.node))}
+
+
+def find_calc(prog: Program) -> FuncInfo:
+    """The target computation, bound by role: the method of the algorithm whose result
+    `calculate_target_power` stores in `self._target_power[...]` / returns.  The historical name is
+    only the tie-breaker."""
+    cached = getattr(prog, "_c03_calc", None)
+    if cached is not None:
+        _CALC["name"] = cached.name
+        return cached
     ct = prog.func(f"{MAT}:Matryoshka.calculate_target_power")
-    if len(ct.params) < 4:
+    cls = ct.cls
+    if cls is None:
+        raise AnalysisError(f"{ct.qual} is not a method")
+    names: dict[str, int] = {}
+    try:
+        for p in sym_paths(inline_helpers(prog, ct, exclude=_loopers(cls)), opaque=None):
+            vals = [e.node.elts[1] for e in p.effects if e.kind == "write"  # type: ignore[attr-defined]
+                    and u(e.node.elts[0]).startswith("self._target_power[")]  # type: ignore[attr-defined]
+            if p.ret is not None:
+                vals.append(p.ret)
+            for v in vals:
+                if isinstance(v, ast.Call) and isinstance(v.func, ast.Attribute) and u(v.func.value) in ("self", "cls", cls.name):
+                    m = prog.resolve_method(cls, v.func.attr)
+                    if m is not None:
+                        names[m.name] = names.get(m.name, 0) + 1
+    except SymUnsupported:
+        pass
+    if len(names) == 1:
+        calc = prog.resolve_method(cls, next(iter(names)))
+    elif CALC_HINT in names or (not names and prog.resolve_method(cls, CALC_HINT) is not None):
+        calc = prog.resolve_method(cls, CALC_HINT)
+    else:
+        raise AnalysisError(f"{ct.qual}: no method plays the role of the target computation "
+                            f"(candidates: {sorted(names)})")
+    assert calc is not None
+    prog._c03_calc = calc  # type: ignore[attr-defined]
+    _CALC["name"] = calc.name
+    return calc
+
+
+def _ctp_paths(prog: Program) -> tuple[FuncInfo, FuncInfo, list[SymPath]]:
+    calc = find_calc(prog)
+    ct = prog.func(f"{MAT}:Matryoshka.calculate_target_power")
+    if len(ct.params) < 4 or ct.cls is None:
         raise AnalysisError(f"{ct.qual}: expected (self, component_ids, proposal, system_bounds, ...)")
-    return calc, ct, sym_paths(inline_helpers(prog, ct), opaque=None)
+    return calc, ct, sym_paths(inline_helpers(prog, ct, exclude=_loopers(ct.cls) | {calc.name}), opaque=None)
 
 
 def _is_calc_call(c: ast.AST) -> bool:
-    return isinstance(c, ast.Call) and isinstance(c.func, ast.Attribute) and c.func.attr == "_calc_target_power" \
+    return isinstance(c, ast.Call) and isinstance(c.func, ast.Attribute) and c.func.attr == _CALC["name"] \
         and u(c.func.value) in ("self", "cls")
 
 
@@ -899,13 +947,17 @@ def check_pure(run: Run, prog: Program) -> None:
                   "the computation is reachable without the bucket test", node=ct.node, file=ct.file,
                   path=p.describe(), instance=f"{ct.qual} :: bucket test on path {_pid(p)}")
     if not n_calls:
-        raise AnalysisError(f"{ct.qual}: no path calls _calc_target_power")
+        raise AnalysisError(f"{ct.qual}: no path calls {calc.name}")
+    methods = set(ct.cls.methods) - {calc.name, ct.name} if ct.cls is not None else set()
+    validators: set[str] = set()
     # a path that does not compute the target is justified by "no bucket": the validation failed
     # (it fails only for a group without a bucket, see below) or the bucket test said so
     for p in paths:
         if p.exit != "return" or p.calls(_is_calc_call):
             continue
-        no_bucket = any(_refused(k, o) for k, o, *_ in p.conds)
+        refusing = [r for r in (_refused(k, o, methods) for k, o, *_ in p.conds) if r]
+        validators.update(refusing)
+        no_bucket = bool(refusing)
         for form, key in bucket_forms.items():
             if p.outcome(key) is (key[0] == "is"):
                 no_bucket = True
@@ -913,7 +965,9 @@ def check_pure(run: Run, prog: Program) -> None:
                   "the recomputation is skipped for an existing (possibly emptied) bucket: after all "
                   "proposals expired the stale target would keep counting", node=ct.node, file=ct.file,
                   path=p.describe(), instance=f"{ct.qual} :: skip justified on path {_pid(p)}")
-    _check_validate(run, prog, ct)
+    prog._c03_validators = set(validators)  # type: ignore[attr-defined]
+    for name in sorted(validators):
+        _check_validate(run, prog, ct, name)
     # the only way to skip the recomputation once a bucket exists is `bucket is None`
     seen_tests: set[tuple[str, int]] = set()
     for p in paths:
@@ -1014,23 +1068,34 @@ def check_pure(run: Run, prog: Program) -> None:
         raise AnalysisError(f"{ct.qual}: no path stores the computed target")
 
 
-def _refused(key: Any, outcome: bool) -> bool:
-    """The path condition says that `self._validate_component_ids(...)` returned a falsy value."""
+def _refused(key: Any, outcome: bool, methods: set[str]) -> str | None:
+    """The path condition says that a call `self.<m>(...)` of a method of the class returned a falsy
+    value: the name of that method (it then has to satisfy the refusal rules), else None."""
     if not isinstance(key, tuple) or len(key) < 2:
-        return False
-    is_val = lambda t: isinstance(t, str) and t.startswith("self._validate_component_ids(")  # noqa: E731
-    if key[0] == "truthy" and is_val(key[1]):
-        return outcome is False
-    if key[0] in ("is", "==") and isinstance(key[1], frozenset) and len(key[1]) == 2 and any(is_val(t) for t in key[1]):
-        other = next(t for t in key[1] if not is_val(t))
-        return (other == "False" and outcome is True) or (other == "True" and outcome is False)
-    return False
+        return None
+
+    def val(t: Any) -> str | None:
+        if isinstance(t, str) and t.startswith("self.") and "(" in t:
+            name = t[5:t.index("(")]
+            return name if name in methods and t.endswith(")") else None
+        return None
+
+    if key[0] == "truthy":
+        return val(key[1]) if outcome is False else None
+    if key[0] in ("is", "==") and isinstance(key[1], frozenset) and len(key[1]) == 2:
+        hit = [t for t in key[1] if val(t)]
+        if len(hit) == 1:
+            other = next(t for t in key[1] if t != hit[0])
+            if (other == "False" and outcome is True) or (other == "True" and outcome is False):
+                return val(hit[0])
+    return None
 
 
-def _check_validate(run: Run, prog: Program, ct: FuncInfo) -> None:
-    """`_validate_component_ids` may refuse (falsy result) only a group that has no bucket yet."""
+def _check_validate(run: Run, prog: Program, ct: FuncInfo, name: str) -> None:
+    """A method whose falsy result makes calculate_target_power return without computing may refuse
+    only a group that has no bucket yet (and, given the system bounds, only while there are none)."""
     cls = ct.cls
-    val = prog.resolve_method(cls, "_validate_component_ids") if cls is not None else None
+    val = prog.resolve_method(cls, name) if cls is not None else None
     if val is None:
         return
     run.analysed(val.qual)
@@ -1314,8 +1379,7 @@ def _prep_suite(stmts: list[ast.stmt]) -> list[ast.stmt]:
         if isinstance(s, ast.Match):
             if any(isinstance(n, (ast.Continue, ast.Break, ast.Return)) for n in ast.walk(s)):
                 raise AnalysisError(f"line {s.lineno}: match statement that leaves the iteration: not modelled")
-            calls = [c for c in ast.walk(s) if isinstance(c, ast.Call) and isinstance(c.func, ast.Attribute)
-                     and c.func.attr in ("drop_old_proposals", "_send_updated_target_power")]
+            calls = [c for c in ast.walk(s) if isinstance(c, ast.Call) and isinstance(c.func, ast.Attribute)]
             out.append(ast.copy_location(ast.Expr(value=ast.Call(
                 func=ast.Name(id="<match>", ctx=ast.Load()), args=[c for c in calls], keywords=[])), s))
             continue
@@ -1384,29 +1448,30 @@ def check_age_actor(run: Run, prog: Program) -> None:
     recv = "self._proposals_receiver"
     if recv not in select_args:
         raise AnalysisError(f"{rn.qual}: {recv} is not selected on")
-    su = prog.resolve_method(rn.cls, "_send_updated_target_power") if rn.cls is not None else None
-    if su is None or len(su.params) < 3:
-        raise AnalysisError(f"{rn.qual}: _send_updated_target_power(self, component_ids, proposal, ...) not found")
     ok, n_paths, worst = True, 0, None
+    takers: set[str] = set()
     for p, st in res:
         if not consistent(p, recv) or st == "raise":
             continue  # an iteration that raises ends the actor's run: nothing is computed at all
         n_paths += 1
         handed = False
-        for e in p.effects:
-            if e.kind != "await" or not isinstance(e.node, ast.Await) or not isinstance(e.node.value, ast.Call):
+        for e in p.calls(lambda c: isinstance(c.func, ast.Attribute) and u(c.func.value) == "self"):
+            c = e.node
+            m = prog.resolve_method(rn.cls, c.func.attr) if rn.cls is not None else None  # type: ignore[attr-defined]
+            texts = [u(a) for a in c.args] + [u(k.value) for k in c.keywords]  # type: ignore[attr-defined]
+            if m is None or f"{sel}.message" not in texts or f"{sel}.message.component_ids" not in texts:
                 continue
-            c = e.node.value
-            if isinstance(c.func, ast.Attribute) and c.func.attr == "_send_updated_target_power" and u(c.func.value) == "self":
-                args = positional(c, su.params[1:])
-                handed = handed or (u(args.get(su.params[1])) == f"{sel}.message.component_ids"
-                                    and u(args.get(su.params[2])) == f"{sel}.message")
+            awaited = any(x.kind == "await" and isinstance(x.node, ast.Await) and u(x.node.value) == u(c) for x in p.effects)
+            if awaited or not m.is_async:
+                handed = True
+                takers.add(m.name)
         if not (handed and st in ("next", "continue")):
             ok, worst = False, p
             break
+    prog._c03_takers = takers  # type: ignore[attr-defined]
     run.check(ok and n_paths > 0, "C03.REPL", rn.qual, "a received proposal is handed to the target computation",
-              "a message of the proposals receiver does not reach _send_updated_target_power(<its component ids>, "
-              "<the proposal>): the actor's latest proposal does not count", node=rn.node, file=rn.file,
+              "a message of the proposals receiver is not passed (with its component ids) to a method of the "
+              "actor that is run to completion: the actor's latest proposal does not count", node=rn.node, file=rn.file,
               path=worst.describe() if worst else None)
 
 
@@ -1519,7 +1584,7 @@ def structural_controls(prog: Program) -> list[tuple[str, str, str, str, str]]: 
         rets_h = [n for n in body_walk(hs.node) if isinstance(n, ast.Return) and n.value is not None]
         if len(rets_h) == 1:
             add(CONTROLS[5][0], BASE, [(rets_h[0].value, f"hash({hs.params[0]}.source_id)")])  # type: ignore[list-item]
-    calc = prog.func(f"{MAT}:Matryoshka._calc_target_power")
+    calc = find_calc(prog)
     for f in reachable_code(prog, calc):
         if f.module.name != prog.module(MAT).name:
             continue
@@ -1527,9 +1592,12 @@ def structural_controls(prog: Program) -> list[tuple[str, str, str, str, str]]: 
         if len(mx) == 1:
             add(CONTROLS[6][0], MAT, [(mx[0].func, "min")])
             break
+    vnames = getattr(prog, "_c03_validators", None)
+    if vnames is None:
+        vnames = {"_validate_component_ids"}
     # -- calculate_target_power: validation test negated / unchanged test flipped / None test flipped
     val_ifs = [n for n in body_walk(ct.node) if isinstance(n, ast.If) and any(
-        isinstance(c, ast.Call) and isinstance(c.func, ast.Attribute) and c.func.attr == "_validate_component_ids"
+        isinstance(c, ast.Call) and isinstance(c.func, ast.Attribute) and c.func.attr in vnames
         for c in ast.walk(n.test))]
     if len(val_ifs) == 1:
         t = val_ifs[0].test
@@ -1547,7 +1615,7 @@ def structural_controls(prog: Program) -> list[tuple[str, str, str, str, str]]: 
     if len(nones) == 1:
         c = nones[0]
         add(CONTROLS[9][0], MAT, [(c, f"{ct.params[2]} {'is' if isinstance(c.ops[0], ast.IsNot) else 'is not'} None")])
-    val = prog.cls(f"{MAT}:Matryoshka").methods.get("_validate_component_ids")
+    val = prog.cls(f"{MAT}:Matryoshka").methods.get(sorted(vnames)[0]) if vnames else None
     if val is not None and len(val.params) >= 4:
         ands = [n for n in body_walk(val.node) if isinstance(n, ast.BoolOp) and isinstance(n.op, ast.And)
                 and all(f"{val.params[3]}." in u(v) and isinstance(v, ast.Compare) for v in n.values)]
@@ -1569,15 +1637,25 @@ def structural_controls(prog: Program) -> list[tuple[str, str, str, str, str]]: 
         add(CONTROLS[11][0], amod, [(ttests[0], f"not {seg(asrc, ttests[0])}")])
     if len(tests) == 1:
         arm = next(n for n in body_walk(rn.node) if isinstance(n, ast.If) and n.test is tests[0])
-        sends = [x for b in arm.body for x in ast.walk(b) if isinstance(x, ast.Expr) and isinstance(x.value, ast.Await)
-                 and isinstance(x.value.value, ast.Call) and isinstance(x.value.value.func, ast.Attribute)
-                 and x.value.value.func.attr == "_send_updated_target_power"]
+        def hands_over(x: ast.AST) -> bool:
+            """`[await] self.<m>(.., P.component_ids, P, ..)`: a statement passing the proposal on."""
+            v = x.value if isinstance(x, (ast.Expr, ast.Assign)) else None
+            v = v.value if isinstance(v, ast.Await) else v
+            if not (isinstance(v, ast.Call) and isinstance(v.func, ast.Attribute) and u(v.func.value) == "self"):
+                return False
+            texts = [u(a) for a in v.args] + [u(k.value) for k in v.keywords]
+            return any(f"{t}.component_ids" in texts for t in texts)
+
+        sends = [x for b in arm.body for x in ast.walk(b) if isinstance(x, ast.Expr) and hands_over(x)]
         if len(sends) == 1:
             add(CONTROLS[12][0], amod, [(sends[0], "pass")])
     out = []
-    for name, module, old, new, rule in CONTROLS:
+    for i, (name, module, old, new, rule) in enumerate(CONTROLS):
         if name in built:
             out.append((name, module, built[name][0], built[name][1], rule))
+        elif i in (7, 10) and not vnames:
+            # no method plays the validation role here (inlined): the textual patch would edit dead code
+            out.append((name, module, "<no validation method in use>", "", rule))
         else:
             out.append((name, module, old, new, rule))
     return out
@@ -1596,7 +1674,7 @@ def env_rules(run: Run, prog: Program, tier: str = "quick") -> None:
             check_end_to_end(run, prog, 1, SHAPES_ALL)
             check_end_to_end(run, prog, 2, SHAPES_SPLIT)
     except StateRead as exc:
-        fn = prog.func(f"{MAT}:Matryoshka._calc_target_power")
+        fn = find_calc(prog)
         run.violation("C03.PURE", fn.qual, "instance state in the target computation",
                       "the target computation reads or writes instance state: the result would depend on "
                       f"history, not only on the live proposals and the bounds ({exc})", node=fn.node, file=fn.file)
